@@ -86,6 +86,7 @@ type Exec struct {
 	curLabel   string
 	dryDepth   int
 	useStrings bool
+	modeTags   []string
 	noEnv      int
 	splitVar   string
 	splitBits  int
@@ -133,6 +134,21 @@ func (x *Exec) assert(st *State, kind, label string, goal Term, tags []string, p
 	if len(tags) == 0 && kind != "vacuity" {
 		// a clause without its own tags supports everything the function serves
 		tags = x.safetyTags
+	}
+	if len(x.modeTags) > 0 {
+		// this verification mode is only claimed for the properties it names
+		var keep []string
+		for _, t := range tags {
+			for _, m := range x.modeTags {
+				if t == m {
+					keep = append(keep, t)
+				}
+			}
+		}
+		tags = keep
+		if len(tags) == 0 && kind != "vacuity" {
+			return
+		}
 	}
 	name := x.top.Key + "/" + kind
 	if strings.HasPrefix(kind, "safety/") {
